@@ -539,6 +539,23 @@ pub fn step(server: &Server, item: &Item, conn: &mut Option<Conn>) -> (String, V
 }
 
 pub fn run_sequence(seq: &[usize], full: bool, keepalive: bool) -> (Vec<Finding>, String) {
+    run_sequence_t(seq, full, keepalive, "")
+}
+
+/// `transport`: "" = one request per write; "crlf" = a stray empty line behind every request;
+/// "pipelined" = a second request (GET /version) written behind every request without waiting.
+pub fn run_sequence_t(seq: &[usize], full: bool, keepalive: bool, transport: &str) -> (Vec<Finding>, String) {
+    match transport {
+        "crlf" => crate::http::set_trailer(b"\r\n"),
+        "pipelined" => crate::http::set_trailer(b"GET /version HTTP/1.1\r\nHost: localhost\r\n\r\n"),
+        _ => crate::http::set_trailer(b""),
+    }
+    let r = run_sequence_inner(seq, full, keepalive);
+    crate::http::set_trailer(b"");
+    r
+}
+
+fn run_sequence_inner(seq: &[usize], full: bool, keepalive: bool) -> (Vec<Finding>, String) {
     let dir = common::scratch_dir("e4");
     let server = Server::start(dir);
     let env = seed(&server.store);
@@ -587,7 +604,7 @@ pub fn worker() {
         let seq: Vec<usize> = serde_json::from_value(job["seq"].clone()).unwrap();
         let full = job["full"].as_bool().unwrap_or(false);
         let keepalive = job["keepalive"].as_bool().unwrap_or(false);
-        let (fs, outcome) = run_sequence(&seq, full, keepalive);
+        let (fs, outcome) = run_sequence_t(&seq, full, keepalive, job["transport"].as_str().unwrap_or(""));
         json!({
             "findings": fs.iter().map(|f| json!({"kind": f.kind, "msg": f.msg})).collect::<Vec<_>>(),
             "outcome": outcome,
@@ -609,6 +626,13 @@ pub fn run_c13(tier: &str, report: &mut Report) {
     for a in 0..n {
         for b in 0..n {
             jobs.push(json!({"seq": [a, b], "full": thorough, "keepalive": false}));
+        }
+    }
+    // the same requests with a stray empty line behind them, and with a second request
+    // pipelined behind them: the answer to the first must not change
+    for t in ["crlf", "pipelined"] {
+        for a in 0..n {
+            jobs.push(json!({"seq": [a], "full": thorough, "keepalive": false, "transport": t}));
         }
     }
     if thorough {
@@ -657,8 +681,8 @@ pub fn run_c13(tier: &str, report: &mut Report) {
             report.add_violation(Violation {
                 property: "C13".into(),
                 signature: format!("E4:{}:{}", kind, if kind == "http.dead" { "after".to_string() } else { item.to_string() }),
-                message: format!("sequence [{}]: {}", seq.iter().map(|i| names[*i].clone()).collect::<Vec<_>>().join(", "), msg),
-                replay: json!({"engine": "e4", "seq": seq, "full": thorough, "keepalive": j["keepalive"], "names": seq.iter().map(|i| names[*i].clone()).collect::<Vec<_>>()}),
+                message: format!("sequence [{}]{}: {}", seq.iter().map(|i| names[*i].clone()).collect::<Vec<_>>().join(", "), j["transport"].as_str().map(|t| format!(" ({})", t)).unwrap_or_default(), msg),
+                replay: json!({"engine": "e4", "seq": seq, "full": thorough, "keepalive": j["keepalive"], "transport": j["transport"], "names": seq.iter().map(|i| names[*i].clone()).collect::<Vec<_>>()}),
             });
         }
     }
@@ -674,7 +698,7 @@ pub fn run_c13(tier: &str, report: &mut Report) {
     report.cov("distinct_request_outcomes", json!(outcomes.len()));
     report.cov("exhaustive", json!(true));
     report.cov("samples", json!(samples));
-    report.cov("explanation", json!(format!("all request sequences of length 1 and 2 over the {}-request alphabet{} against the real api::serve on a seeded store; each response compared with the Store API on the same store (status class, effect on the raw partitions, NDJSON/SSE rendering), followed by GET /version on a new connection", n, if thorough { " (+ keep-alive variants and length 3 over a 14-request core)" } else { "" })));
+    report.cov("explanation", json!(format!("all request sequences of length 1 and 2 over the {}-request alphabet{} against the real api::serve on a seeded store; each response compared with the Store API on the same store (status class, effect on the raw partitions, NDJSON/SSE rendering), followed by GET /version on a new connection; every single request again with a stray empty line behind it and with a second request pipelined behind it", n, if thorough { " (+ keep-alive variants and length 3 over a 14-request core)" } else { "" })));
     let _ = t0;
     let _ = Duration::from_secs(0);
 }
@@ -729,7 +753,7 @@ pub fn replay(v: &Value) -> i32 {
     let seq: Vec<usize> = serde_json::from_value(v["seq"].clone()).unwrap();
     let full = v["full"].as_bool().unwrap_or(false);
     let keepalive = v["keepalive"].as_bool().unwrap_or(false);
-    let (fs, outcome) = run_sequence(&seq, full, keepalive);
+    let (fs, outcome) = run_sequence_t(&seq, full, keepalive, v["transport"].as_str().unwrap_or(""));
     println!("outcome: {}", outcome);
     for f in &fs {
         println!("finding {}: {}", f.kind, f.msg);
